@@ -20,7 +20,7 @@ KINDS = ('POST', 'POST-NONE', 'POST-RANGE', 'POST-MATCH', 'POST-FIRST', 'AXIOM-P
 MODE_WORD = 'fwd'
 
 
-def run(ctx, pid=PID, roots=ROOTS, kinds=KINDS, what='forward', floor_roots=9):
+def run(ctx, pid=PID, roots=ROOTS, kinds=KINDS, what='forward', floor_roots=9, floors=None):
     rep = Report(pid, 'proof',
                  f"E2+E3 abstract interpretation of every {what} byte-search root with symbolic haystack and needles and a ghost "
                  "scan-coverage pointer per needle; the post-conditions None=>everything examined, Some(p)=>in range, a real match, "
@@ -43,6 +43,8 @@ def run(ctx, pid=PID, roots=ROOTS, kinds=KINDS, what='forward', floor_roots=9):
             fl = 15
         elif cfg.startswith('x64-nosse2'):
             fl = 9
+        if floors is not None:
+            fl = next((v for k, v in floors if cfg.startswith(k)), floor_roots)
         rep.floor(f'{what}-search-roots[{cfg}]', n, fl)
     rep.extra.update({'configs': cfgs, 'roots_per_config': {c: sorted(set(v)) for c, v in roots_seen.items()}, 'sites_by_kind': per_kind})
     return rep
